@@ -89,4 +89,27 @@ theorem diskRead_some (d : Bytes) (off n : Nat) (h : off + n ≤ d.length) :
 theorem diskRead_length (d : Bytes) (off n : Nat) (bs : Bytes) (h : diskRead d off n = some bs) : bs.length = n := by
   rw [diskRead_eq d off n bs h]; simp
 
+theorem hpRead_eq (f : File) (off n : Nat) (bs : Bytes) (h : f.hpRead off n = some bs) :
+    bs = (List.range n).map (fun i => rd f.disk (off + i)) := by
+  unfold File.hpRead at h
+  cases hd : diskRead f.disk off n with
+  | some b =>
+    rw [hd] at h
+    simp only [Option.some.injEq] at h
+    rw [← h]; exact diskRead_eq _ _ _ _ hd
+  | none =>
+    rw [hd] at h
+    simp only at h
+    split at h
+    · exact (Option.some.inj h).symm
+    · cases h
+
+theorem hpRead_some (f : File) (off n : Nat) (h : off + n ≤ f.disk.length) :
+    f.hpRead off n = some ((List.range n).map (fun i => rd f.disk (off + i))) := by
+  unfold File.hpRead
+  rw [diskRead_some _ _ _ h]
+
+theorem hpRead_length (f : File) (off n : Nat) (bs : Bytes) (h : f.hpRead off n = some bs) : bs.length = n := by
+  rw [hpRead_eq f off n bs h]; simp
+
 end H4.Elem
